@@ -356,7 +356,7 @@ func (x *Exec) doStore(st *State, fi int, addr Value, v Value, addrV ssa.Value, 
 			l := &Loc{Base: addr.T, Root: pt.Elem()}
 			for _, n := range x.locHeapNames(l) {
 				x.guardCheck(st, n, true, false, pos)
-				x.recHeap(n)
+				x.recHeapObj(n, addr.T)
 			}
 			x.storeField(st, addr.T, pt.Elem(), nil, v.T)
 			return
@@ -382,7 +382,14 @@ func (x *Exec) doStore(st *State, fi int, addr Value, v Value, addrV ssa.Value, 
 	}
 	for _, n := range x.locHeapNames(l) {
 		x.guardCheck(st, n, true, false, pos)
-		x.recHeap(n)
+		switch {
+		case l.Root != nil:
+			x.recHeapObj(n, l.Base)
+		case l.Arr.S != "":
+			x.recHeapObj(n, l.Arr)
+		default:
+			x.recHeap(n)
+		}
 	}
 	v.T = x.valueTerm(v)
 	// a plain store to a field that the protocol declares as a step
